@@ -8,7 +8,9 @@ import (
 	"sort"
 	"strconv"
 	"strings"
+	"syscall"
 	"time"
+	"unsafe"
 )
 
 // pstat is what the monitor reads from /proc/<pid>/stat.
@@ -191,4 +193,37 @@ func listPrefixed(dir, prefix string) []string {
 	}
 	sort.Strings(out)
 	return out
+}
+
+// kernelSigaction is struct sigaction of rt_sigaction(2) on linux (amd64, arm64, ...).
+type kernelSigaction struct {
+	handler  uintptr
+	flags    uint64
+	restorer uintptr
+	mask     uint64
+}
+
+// sigDisposition reads the kernel's disposition of sig for this process: 0 = SIG_DFL, 1 = SIG_IGN,
+// anything else = a handler.
+func sigDisposition(sig syscall.Signal) (uintptr, error) {
+	var old kernelSigaction
+	if _, _, e := syscall.RawSyscall6(syscall.SYS_RT_SIGACTION, uintptr(sig), 0, uintptr(unsafe.Pointer(&old)), 8, 0, 0); e != 0 {
+		return 0, e
+	}
+	return old.handler, nil
+}
+
+// resetIgnoredSignal sets sig back to SIG_DFL if this process inherited it as ignored. The Go
+// runtime installs no handler for an inherited-ignored SIGINT, so nothing of the runtime is
+// overwritten; processes exec'ed from here start with the default disposition.
+func resetIgnoredSignal(sig syscall.Signal) (wasIgnored bool, err error) {
+	h, err := sigDisposition(sig)
+	if err != nil || h != 1 {
+		return false, err
+	}
+	var dfl kernelSigaction // handler 0 = SIG_DFL
+	if _, _, e := syscall.RawSyscall6(syscall.SYS_RT_SIGACTION, uintptr(sig), uintptr(unsafe.Pointer(&dfl)), 0, 8, 0, 0); e != 0 {
+		return true, e
+	}
+	return true, nil
 }
